@@ -854,6 +854,16 @@ def main():
             info['leanchecker'] = {'rc': rc_lc, 'wall_s': round(time.time() - t_lc, 1), 'tail': out_lc.strip().splitlines()[-1][:200] if out_lc.strip() else ''}
             if rc_lc != 0:
                 broken.append({'what': 'leanchecker', 'detail': out_lc[-400:]})
+            # the source-tie modules that hold are re-checked independently too (informational, like the ties themselves)
+            for what, u in (info.get('source_tie') or {}).get('units', {}).items():
+                if u.get('held'):
+                    mod = SOURCE_TIES[what]['module']
+                    t_lc = time.time()
+                    rc2_, out2_ = sh(['lake', 'env', 'leanchecker', mod], cwd=LEAN, timeout=3600)
+                    u['leanchecker'] = {'rc': rc2_, 'wall_s': round(time.time() - t_lc, 1)}
+                    if rc2_ != 0:
+                        u['held'] = False
+                        u['status'] = 'unavailable: leanchecker rejects ' + mod
     fails, disag, known_hits, stats = run_streams(prop, streams, info, corr=b['driver_ok'])
     extra = probes.run(prop, tier, seed, info)          # impl-only probes (C16 cost, C17 buffers, C20 isolation)
     fails += [('probe', f) for f in extra.get('failures', [])]
